@@ -15,6 +15,7 @@ rest of the file is kept verbatim):
                                            reading or writing a name the other writes, both without calls that could have effects
                                            (only attribute-free calls of names / numpy functions are accepted)
   dead      (nothing)          ->  _unused_local = 0   inserted as the first statement after the docstring
+  inline    t = E; S(.. t ..)  ->  S(.. E ..)   a local bound once directly in the body and read exactly once, in the next statement
 
 A mutant that adds a violated obligation or loses a confirmed one is a defect of the CHECKER."""
 
@@ -29,7 +30,7 @@ from .main import load_floors, lost_confirmed, run_property
 from .model import DEFAULT, MISSING, RepoModel
 
 REPO = os.environ.get("VERIF_REPO", "/repo")
-MUTATORS = ("kw", "pos", "hoist", "ret", "flipif", "flipcmp", "dagger", "swap", "dead")
+MUTATORS = ("kw", "pos", "hoist", "ret", "flipif", "flipcmp", "dagger", "swap", "dead", "inline")
 
 
 def _simple_stmt(s):
@@ -145,6 +146,40 @@ def mutants_of(model, f, fn=None):
                 fn2 = copy.deepcopy(fn)
                 fn2.body[si], fn2.body[si + 1] = fn2.body[si + 1], fn2.body[si]
                 yield ("swap", si, fn2)
+    # ---- inline: a local bound once by a plain assignment and read exactly once, in the next statement of the same block
+    def _all_blocks(node):
+        out = []
+        for n_ in ast.walk(node):
+            for fld in ("body", "orelse", "finalbody"):
+                b_ = getattr(n_, fld, None)
+                if isinstance(b_, list) and b_ and isinstance(b_[0], ast.stmt) and not (isinstance(n_, (ast.FunctionDef, ast.ClassDef)) and n_ is not node):
+                    out.append((n_, fld))
+        return out
+
+    k_inl = 0
+    for owner, fld in _all_blocks(fn):
+        blk = getattr(owner, fld)
+        for si in range(len(blk) - 1):
+            a, b = blk[si], blk[si + 1]
+            if not (_plain(a) and isinstance(b, (ast.Assign, ast.Return, ast.Expr, ast.AugAssign))):
+                continue
+            nm = a.targets[0].id
+            occ = [n for n in ast.walk(fn) if isinstance(n, ast.Name) and n.id == nm]
+            loads = [n for n in occ if isinstance(n.ctx, ast.Load)]
+            stores = [n for n in occ if isinstance(n.ctx, ast.Store)]
+            if len(stores) != 1 or len(loads) != 1 or not any(x is loads[0] for x in ast.walk(b)):
+                continue
+            if any(isinstance(x, (ast.ListComp, ast.GeneratorExp, ast.SetComp, ast.DictComp, ast.Lambda, ast.IfExp, ast.BoolOp)) and any(y is loads[0] for y in ast.walk(x)) for x in ast.walk(b)):
+                continue
+            fn2 = copy.deepcopy(fn)
+            owner2 = _same_node(fn, fn2, owner)
+            blk2 = getattr(owner2, fld)
+            a2, b2 = blk2[si], blk2[si + 1]
+            tgt = next(n for n in ast.walk(b2) if isinstance(n, ast.Name) and n.id == nm and isinstance(n.ctx, ast.Load))
+            _replace(b2, tgt, a2.value)
+            del blk2[si]
+            yield ("inline", k_inl, fn2)
+            k_inl += 1
     # ---- dead local
     fn2 = copy.deepcopy(fn)
     at = 1 if (fn2.body and isinstance(fn2.body[0], ast.Expr) and isinstance(fn2.body[0].value, ast.Constant) and isinstance(fn2.body[0].value.value, str)) else 0
